@@ -3,6 +3,7 @@
    examples, Print Assumptions. *)
 From RJ Require Import Base.Outcome Model.Token Model.Utf8 Model.Lexer
   Proofs.Utf8_proofs Proofs.Lexer_proofs Gen.LexTables.
+From Coq Require Import Lia.
 Local Open Scope N_scope.
 
 (* ---- T: the tables found in the current source are the model's ---- *)
@@ -66,6 +67,65 @@ Theorem C14_lex_total : forall keep input, bytes_ok input ->
   (exists e, lex_all keep input = Err e /\ located (input_len input) e).
 Proof. exact lex_total. Qed.
 
+(* ---- operators: maximal munch ---- *)
+(* the operator token is the LONGEST admissible prefix (op_len_ok: symbol bytes
+   only; no three-pipes / slash-slash / slash-star sequence starting inside; not
+   ending in + - ~ ! $ unless of length 1), its kind is read off the operator
+   table, and lexing continues right after it *)
+Theorem C14_operator_maximal_munch : forall len start b0 c t c', is_op_byte b0 = true ->
+  lex_operator len start b0 c = Ok (t, c') ->
+  exists n, op_len_ok (b0 :: rest c) n /\ (forall m, op_len_ok (b0 :: rest c) m -> (m <= n)%nat) /\
+            rest c' = skipn n (b0 :: rest c) /\
+            tok_kind t = match assoc_bytes (firstn n (b0 :: rest c)) operator_table with
+                         | Some k => TSimple k
+                         | None => TOtherOp (firstn n (b0 :: rest c))
+                         end.
+Proof. exact lex_operator_text. Qed.
+
+Example C14_munch_example :
+  let s := bytes_of_string "==-|||" in op_len_ok s 2 /\ ~ op_len_ok s 3 /\ ~ op_len_ok s 4.
+Proof.
+  cbv zeta. split; [|split].
+  - split; [cbn; lia|]. split; [intros [|[|i]] Hi; try reflexivity; lia|].
+    split; [intros [|[|i]] Hi; try reflexivity; lia|right; reflexivity].
+  - intros [_ [_ [_ [H|H]]]]; [discriminate|vm_compute in H; discriminate].
+  - intros [_ [_ [H _]]]. specialize (H 3%nat ltac:(lia)). vm_compute in H. discriminate.
+Qed.
+
+(* ---- literal values ---- *)
+(* verbatim strings: the scanner computes the grammar's value (verbatim_spec:
+   doubled delimiter = one delimiter, first single delimiter ends the literal) of
+   the LOSSY DECODING of the input *)
+Theorem C14_verbatim_string_value : forall len start delim, delim < 128 -> forall fuel c s c',
+  bytes_ok (rest c) -> verbatim_loop len fuel start delim c = Ok (s, c') ->
+  verbatim_spec delim (lossy (rest c)) = Some (s, lossy (rest c')) /\ bytes_ok (rest c').
+Proof. exact verbatim_string_value. Qed.
+
+(* \uHHHH\uLLLL: exactly the UTF-16 decoding, onto every supplementary scalar *)
+Theorem C14_surrogate_pairs : forall hi lo c,
+  decode_utf16_pair hi lo = Some c <->
+  (0xD800 <= hi <= 0xDBFF /\ 0xDC00 <= lo <= 0xDFFF /\ c = 0x10000 + (hi - 0xD800) * 1024 + (lo - 0xDC00)).
+Proof. exact surrogate_pair_value. Qed.
+
+Theorem C14_surrogate_pairs_onto : forall c, 0x10000 <= c <= 0x10FFFF ->
+  decode_utf16_pair (0xD800 + (c - 0x10000) / 1024) (0xDC00 + (c - 0x10000) mod 1024) = Some c /\
+  is_scalar c = true.
+Proof. exact surrogate_pair_onto. Qed.
+
+(* NOT proved — kept as the goal: the quoted-string scanner computes the
+   grammar's value (quoted_spec: escapes by the translated table, \uHHHH, UTF-16
+   pairs) of the lossy decoding of the input.  The text-block and number value
+   statements are described in notes/C14.md.  All three are covered by K and by
+   the generator-known-value oracle of the check. *)
+Definition C14_goal_quoted_string_value : Prop :=
+  forall len start delim fuel c s c', delim < 128 -> delim <> 92 ->
+    bytes_ok (rest c) -> quoted_loop len fuel start delim c = Ok (s, c') ->
+    quoted_spec (S (length (rest c))) delim (lossy (rest c)) = Some (s, lossy (rest c')).
+
+Example C14_quoted_spec_example :
+  quoted_spec 40 39 (bytes_of_string "a\n\u00e9\uD83D\uDE00\'b' x") = Some ([97; 10; 233; 128512; 39; 98], [32; 120]).
+Proof. vm_compute. reflexivity. Qed.
+
 (* ---- non-vacuity: the hypotheses are met by non-trivial inputs, and the
    model computes inside the kernel ---- *)
 Example C14_nonvacuous :
@@ -96,4 +156,10 @@ Print Assumptions C14_lex_error_located.
 Print Assumptions C14_fuel_sufficient.
 Print Assumptions C14_lex_no_panic.
 Print Assumptions C14_lex_total.
+Print Assumptions C14_operator_maximal_munch.
+Print Assumptions C14_munch_example.
+Print Assumptions C14_verbatim_string_value.
+Print Assumptions C14_surrogate_pairs.
+Print Assumptions C14_surrogate_pairs_onto.
+Print Assumptions C14_quoted_spec_example.
 Print Assumptions C14_nonvacuous.
